@@ -55,6 +55,7 @@ CONFIGS = (
     + [["Chain", {"steps": [["Trend", {"degree": 1}], ["Spline", {}]]}],
        ["Chain", {"steps": [["Trend", {"degree": 0}], ["KNeighbors", {"k": 1}]]}],
        ["Chain", {"steps": [["Trend", {"degree": 1}], ["Linear", {}]]}],
+       ["Chain", {"steps": [["Trend", {"degree": 1}], ["Spline", {}]], "names": "dup"}],   # all steps share one name (seed C01-10)
        ["Vector", {"components": [["Spline", {}], ["KNeighbors", {"k": 1}]]}],
        ["Vector", {"components": [["Linear", {}], ["Cubic", {}]]}]]
 )
@@ -214,6 +215,11 @@ def _exactness(rec, spec, e, n, ext, shape, what, prefit=False):
         else:
             comps = [v, v[::-1] * 3.0 + 1.0][:nc]
             data = tuple(rs(c) for c in comps)
+        if (vi + npts) % 3 == 1:
+            # the data (not the coordinates) as float32: the values compared are the float32 values (seed C01-9: a Jacobian allocated
+            # in the data's dtype)
+            comps = [c.astype(np.float32).astype(float) for c in comps]
+            data = rs(comps[0].astype(np.float32)) if nc == 1 else tuple(rs(c.astype(np.float32)) for c in comps)
         if "forces_at_data" in spec[1]:
             kw_ = {k: v for k, v in spec[1].items() if k != "forces_at_data"}
             perm = np.arange(npts)[::-1] if spec[1]["forces_at_data"] == "reversed" else np.roll(np.arange(npts), 1)
